@@ -15,6 +15,7 @@ import Rare.Proofs.C08Size
 import Rare.Proofs.C08Doubling
 import Rare.Proofs.C08ArrayBound
 import Rare.Proofs.C08Unmodelled
+import Rare.Proofs.C08Dedup
 import Rare.Proofs.C08Format
 import Rare.Proofs.C08TimeW
 import Rare.Proofs.C08TimeSeam
@@ -34,9 +35,10 @@ safe argument stages the builder neither panics at compile time nor returns a st
   against any context returns a string.
 * `std_safe`: every modelled helper of `stdlib.StandardFunctions` is a safe builder (proved per
   family); `functions_covered` (over the table regenerated from /repo): every one of the 85 Go helpers is
-  proved panic-free (75: `safeTable`, the world-dependent `color bar load json`, the six time helpers
+  proved panic-free (78: `safeTable`, the world-dependent `color bar load json`, the six time helpers
   relative to a time world, `format`) or is a modelled helper that can answer `unmodelled` for part of its
-  inputs (10: float / non-ASCII case / `{! }` rendering).  No helper is outside the model.
+  inputs (7: `math.Pow` / `math.Log*` / non-ASCII case / `{! }` rendering; `unmodelled_helpers_safe_mod`: these stop
+  only at an explicit marker in front of the library call).  No helper is outside the model.
 * `format_safe`: `{format}` = `fmt.Sprintf` on string operands (`Funcs/Format.lean`) returns for every format and
   operand list; `time_safe`, `time_name_tables_safe`: `time`, `timeformat`, `timeattr`, `buckettime`, `duration`,
   `durationformat` (`Funcs/TimeW.lean` over `Model/C18.lean`) are panic-free in every time world (zone
@@ -56,18 +58,23 @@ safe argument stages the builder neither panics at compile time nor returns a st
 namespace Rare.C08
 open Rare.Expr
 
-/-- Helpers whose builder can answer `unmodelled` (float-valued arithmetic, non-ASCII case mapping, unit
-    scaling that needs float rounding, the float rendering of `{! …}`): outside the theorems below. -/
+/-- Helpers whose builder can answer `unmodelled` (`math.Pow` / `math.Log*`, non-ASCII case mapping, the float
+    rendering of `{! …}`): outside the `Safe` theorems below, see `unmodelled_helpers_safe_mod`.  (Round 4b:
+    `bytesize` `bytesizesi` `downscale` left this list - the registry resolves them to the binary64 builders of
+    `Funcs/Float.lean`, which are safe; the integer-only entries of `Funcs/Strings.lean` are shadowed.) -/
 def unmodelledNames : List String :=
-  Funcs.Arith.arithUnmodelled ++ Funcs.Strings.stringsUnmodelled ++ Funcs.Misc.miscUnmodelled ++
+  Funcs.Arith.arithUnmodelled ++ ["upper", "lower"] ++ Funcs.Misc.miscUnmodelled ++
   Funcs.Range.rangeUnmodelled ++ Funcs.Math.mathUnmodelled
 
-/-- The modelled helpers that are proved panic-free. -/
-def safeTable : Table := stdTable.filter fun p => !unmodelledNames.contains p.1
+/-- The modelled helpers that are proved panic-free: the entries `lookupTable stdTable` can resolve (the first of
+    every name), without the unmodelled names. -/
+def safeTable : Table := (dedup stdTable []).filter fun p => !unmodelledNames.contains p.1
 
 theorem std_safe : ∀ p ∈ safeTable, SafeBuilder p.2 := by
   intro p hp
-  obtain ⟨hmem, hnot⟩ := List.mem_filter.mp hp
+  obtain ⟨hded, hnot⟩ := List.mem_filter.mp hp
+  obtain ⟨hfind, _⟩ := mem_dedup_find stdTable [] p hded
+  have hmem : p ∈ stdTable := List.mem_of_find?_eq_some hfind
   have hn : p.1 ∉ unmodelledNames := by
     intro h; simp at hnot; exact hnot h
   have hn' : ∀ l : List String, (∀ x ∈ l, x ∈ unmodelledNames) → p.1 ∉ l := fun l hl h => hn (hl _ h)
@@ -75,21 +82,56 @@ theorem std_safe : ∀ p ∈ safeTable, SafeBuilder p.2 := by
   rcases hmem with (((((h | h) | h) | h) | h) | h) | h
   · exact Funcs.Logic.logic_safe p h
   · exact Funcs.Arith.arith_safe p h (hn' _ fun x hx => by simp [unmodelledNames, hx])
-  · exact Funcs.Strings.strings_safe p h (hn' _ fun x hx => by simp [unmodelledNames, hx])
+  · -- the Strings family: `upper` / `lower` are excluded by name; an entry named `bytesize` / `bytesizesi` /
+    -- `downscale` that survived `dedup` is the FIRST of its name in `stdTable`, i.e. the binary64 builder
+    by_cases hb : p.1 = "bytesize" ∨ p.1 = "bytesizesi" ∨ p.1 = "downscale"
+    · rcases hb with e | e | e <;>
+      · rw [e] at hfind
+        have := Option.some.inj (hfind.symm.trans (by rfl : stdTable.find? (fun x => x.1 == _) = some (_, _)))
+        rw [this]
+        exact Funcs.Float.unitHelper_safe _ _ _ _
+    · refine Funcs.Strings.strings_safe p h ?_
+      intro hin
+      simp only [Funcs.Strings.stringsUnmodelled, List.mem_cons, List.not_mem_nil, or_false] at hin
+      rcases hin with e | e | e | e | e
+      · exact hn (by simp [unmodelledNames, e])
+      · exact hn (by simp [unmodelledNames, e])
+      · exact hb (.inl e)
+      · exact hb (.inr (.inl e))
+      · exact hb (.inr (.inr e))
   · exact Funcs.Range.range_safe p h (hn' _ fun x hx => by simp [unmodelledNames, hx])
   · exact Funcs.Math.math_safe p h (hn' _ fun x hx => by simp [unmodelledNames, hx])
   · simp [Funcs.Time.table] at h
   · exact Funcs.Misc.misc_safe p h (hn' _ fun x hx => by simp [unmodelledNames, hx])
 
-/-- **The ten helpers outside `safeTable` stop only at their library call**: for each of `pow log10 log2 ln upper
-    lower !` (and `bytesize bytesizesi downscale`, see below) the builder the registry resolves, given argument expressions that cannot
+/-- **The safe table resolves names as the full table does**: for every name outside `unmodelledNames`, looking it
+    up in `safeTable` gives exactly the builder `lookupTable stdTable` gives (so `safeRegistry` and the registry of
+    the correspondence driver agree on every helper the theorems speak about; the first entry of a name wins in
+    both). -/
+theorem safe_table_agrees (n : String) (hn : n ∉ unmodelledNames) :
+    lookupTable safeTable n = lookupTable stdTable n := by
+  rw [← lookup_dedup stdTable n]
+  unfold lookupTable safeTable
+  rw [List.find?_filter]
+  congr 1
+  apply find?_congr'
+  intro x _
+  by_cases hx : (x.1 == n) = true
+  · have e : x.1 = n := by simpa using hx
+    have hnx : x.1 ∉ unmodelledNames := e ▸ hn
+    simp [hx, hnx]
+  · have : (x.1 == n) = false := by simpa using hx
+    simp [this]
+
+/-- **The seven helpers outside `safeTable` stop only at their library call**: for each of `pow log10 log2 ln upper
+    lower !` the builder the registry resolves, given argument expressions that cannot
     panic, never fails at compile time, and the stage it returns has no panic node except an explicit
     `unmodelled:…` marker (`math.Pow` / `math.Log*` on parsed floats, the Unicode case tables on non-ASCII input,
     the float64 rendering of a formula value): every arity check, constant
     evaluation, number parse and `<…>` marker in front of the library call is panic-free for all inputs; evaluated in
-    any context such a stage returns or stops at a marker.  For `bytesize bytesizesi downscale` the builder the
-    registry resolves is the binary64 one of `Funcs/Float.lean`, a full `SafeBuilder` without markers (they are
-    outside `safeTable` only by name: the shadowed integer-only version of `Funcs/Strings.lean` has a marker).
+    any context such a stage returns or stops at a marker.  For `bytesize bytesizesi downscale` (in round 4
+    excluded by name) the builder the registry resolves is the binary64 one of `Funcs/Float.lean`, a full
+    `SafeBuilder` without markers: they are in `safeTable` now.
     (One level deep: the arguments are assumed panic-free
     WITHOUT markers; nesting one of the ten inside another helper is covered by the correspondence only.) -/
 theorem unmodelled_helpers_safe_mod :
@@ -102,19 +144,16 @@ theorem unmodelled_helpers_safe_mod :
     simp only [List.mem_cons, List.not_mem_nil, or_false] at hn
     rcases hn with rfl | rfl | rfl <;> exact ⟨_, rfl, Funcs.Float.unitHelper_safe _ _ _ _⟩
   intro n hn
-  simp only [unmodelledNames, Funcs.Arith.arithUnmodelled, Funcs.Float.floatUnmodelled, Funcs.Strings.stringsUnmodelled,
+  simp only [unmodelledNames, Funcs.Arith.arithUnmodelled, Funcs.Float.floatUnmodelled,
     Funcs.Misc.miscUnmodelled, Funcs.Range.rangeUnmodelled, Funcs.Math.mathUnmodelled, List.append_nil, List.cons_append,
     List.nil_append, List.mem_cons, List.not_mem_nil, or_false] at hn
-  rcases hn with rfl | rfl | rfl | rfl | rfl | rfl | rfl | rfl | rfl | rfl
+  rcases hn with rfl | rfl | rfl | rfl | rfl | rfl | rfl
   · exact ⟨_, rfl, floatHelperU_safeU "pow"⟩
   · exact ⟨_, rfl, unaryU_safeU "log10"⟩
   · exact ⟨_, rfl, unaryU_safeU "log2"⟩
   · exact ⟨_, rfl, unaryU_safeU "ln"⟩
   · exact ⟨_, rfl, caseHelper_safeU _⟩
   · exact ⟨_, rfl, caseHelper_safeU _⟩
-  · exact ⟨_, rfl, safeU_of_safeBuilder (Funcs.Float.unitHelper_safe _ _ _ _)⟩
-  · exact ⟨_, rfl, safeU_of_safeBuilder (Funcs.Float.unitHelper_safe _ _ _ _)⟩
-  · exact ⟨_, rfl, safeU_of_safeBuilder (Funcs.Float.unitHelper_safe _ _ _ _)⟩
   · exact ⟨_, rfl, kfMath_safeU⟩
 
 example : ∃ built, Funcs.Float.floatHelperU "pow" [.ret (ascii "2"), Comp.match_ 0] = .ok built ∧
@@ -347,7 +386,7 @@ theorem safeRegistryX_safe {α : Type} (w : Funcs.Extra.World α) (hg : ∀ j p,
       exact all_safe w hg tw hw isPrint p (List.mem_of_find?_eq_some hf)
   · simp at h
 
-/-- `compile_total` / `eval_total` with 75 of the 85 helpers of `stdlib.StandardFunctions`: the 64 standard
+/-- `compile_total` / `eval_total` with 78 of the 85 helpers of `stdlib.StandardFunctions`: the 67 standard
     ones of `safeTable`, `color` `bar` `load` `json`, the six time helpers and `format` – for every world. -/
 theorem full_compile_eval_total {α : Type} (w : Funcs.Extra.World α) (hg : ∀ j p, Safe (w.gjson j p))
     (tw : Funcs.TimeW.TimeWorld) (hw : tw.Returns) (isPrint : Nat → Bool)
@@ -385,8 +424,8 @@ theorem functions_covered :
       Funcs.Format.names.contains n || unmodelledNames.contains n) = true ∧
     Gen.stdFunctionNames.length = 85 ∧
     (Gen.stdFunctionNames.filter fun n => (safeTable.map (·.1)).contains n || Funcs.Extra.names.contains n ||
-      Funcs.TimeW.names.contains n || Funcs.Format.names.contains n).length = 75 ∧
-    (Gen.stdFunctionNames.filter fun n => unmodelledNames.contains n).length = 10 := by decide
+      Funcs.TimeW.names.contains n || Funcs.Format.names.contains n).length = 78 ∧
+    (Gen.stdFunctionNames.filter fun n => unmodelledNames.contains n).length = 7 := by decide
 
 /-- The name lists are exactly the names of the tables (in every world). -/
 theorem time_format_names (tw : Funcs.TimeW.TimeWorld) (isPrint : Nat → Bool) :
